@@ -374,6 +374,14 @@ fn sweep(c: &mut Ctx, rng: &mut impl Rng, root: &Path, masks_per_pos: u64, trunc
             c.t.ev(json!({"ev":"Store","id":id,"seed":st,"pw":cur,"ok":r.is_ok()}));
         }
     }
+    // seed 1 is replaced: the file on disk is the third generation, the superseded material of seed 1 must never come back
+    {
+        let seed = new_seed(rng);
+        let st = c.seed_tok(seed.seed_material());
+        if let Out::Val(r) = c.call("store_master_seed", m.store_master_seed("seed-1", &seed, &pw(cur))) {
+            c.t.ev(json!({"ev":"Store","id":1,"seed":st,"pw":cur,"ok":r.is_ok()}));
+        }
+    }
     drop(m);
     let Ok(orig) = std::fs::read(&store) else {
         eprintln!("c18: sweep: no store file");
